@@ -144,8 +144,16 @@ def run(chk):
             chk.verdict("O4", (g, encl), encl.iter, True if [d[0] for d in dirs] == ["last", "first"] else False,
                         f"{name}: a sweep must go to the last site and come back to the first (canonical form at exit)")
     body = A.strip_docstring(fn.body)
+    def _noncanonical_branch(n):
+        """statements executed when the input is NOT canonical: the body of `if not psi.is_canonical(..)`, the else of `if psi.is_canonical(..)`"""
+        t = n.test
+        neg = False
+        while isinstance(t, ast.UnaryOp) and isinstance(t.op, ast.Not):
+            neg = not neg
+            t = t.operand
+        return n.body if neg else n.orelse
     can = [n for n in body if isinstance(n, ast.If) and "is_canonical(to='first')" in A.text(n.test)
-           and any("canonize_(to='first')" in A.text(b) for b in n.body)]
+           and any("canonize_(to='first')" in A.text(b) for b in _noncanonical_branch(n))]
     chk.verdict("O4", (f, can[0] if can else fn), can[0].test if can else "canonise input", True if can and can[0].lineno < envdef[0].lineno else False,
                 "_dmrg_: a non-canonical input state is no longer canonised before the environments are built")
     # the norm factor of the input is reset before the environments are built, on every path: is_canonical() says nothing about
